@@ -115,7 +115,14 @@ func generate(prop, tier string, rng *Rng) []Case {
 		}
 		return genCfg(tier, rng)
 	case "C08":
-		return genC08(tier, rng)
+		cs := genC08(tier, rng)
+		// "in every interleaving": the schedules of overlapping requests in which the rule caps the lifetime
+		for _, c := range coordPinned() {
+			if c.Force > 0 {
+				cs = append(cs, c)
+			}
+		}
+		return cs
 	case "C15":
 		cs := append(genRangeUnit(tier), genC15Hist(tier, rng)...)
 		// byte ranges on a rule with recompression and a cache (the aecache family): the sequences that contain a Range
